@@ -1,6 +1,8 @@
 // Unit xml_escape (C09), Kani side, BOUNDED (kind Kb: texts of at most 6 octets, every octet value):
 // TextEscape::write_escaped of src/xml/encode.rs emits no raw `<`, `&` (attribute mode also `"`, `'`,
 // `>`) and un-escaping the five standard entities gives the input back.  Supporting evidence only.
+// Harnesses: xml_replace_char (K, complete: every octet, both modes), xml_escape_kb_n4 (Kb, quick tier,
+// about 3 min), xml_escape_kb_n6 (Kb, thorough tier only: about 10 min and several GB of CBMC memory).
 //@features ca,rtr,slurm
 
 //@append src/xml/encode.rs
@@ -10,18 +12,20 @@ mod verif_xml_escape {
     use super::*;
     use crate::verif_support::{assume, reach};
 
-    /// Independent streaming un-escaper used as the `io::Write` target: every octet written is
-    /// decoded left to right (the five predefined entities of XML 1.0 section 4.6; a `&` that does not
-    /// start one of them, or any other character that must be escaped in this context, appearing raw is
-    /// an error) and the decoded characters are compared with the expected text `inp[..n]`.
+    /// Independent un-escaper used as the `io::Write` target.  It decodes what is written, left to
+    /// right, and compares the decoded characters with the expected text `inp[..n]`.  To keep CBMC's
+    /// formula small it looks at one `write` at a time and accepts exactly two shapes (anything else
+    /// sets `bad`, so it can only reject too much, never accept a wrong output):
+    ///   * the write is exactly one of the five predefined entities (XML 1.0 section 4.6) -> that character;
+    ///   * the write is a run of at most 6 octets none of which must be escaped in this context
+    ///     (so in particular no `&`) -> these characters.
     /// No output array with symbolic positions is kept (that made CBMC run out of memory).
     pub struct Unesc {
         pub attr: bool, pub inp: [u8; 6], pub n: usize,
         /// number of characters decoded so far (all equal to inp[..i])
         pub i: usize,
-        /// octets since an unfinished `&` (big-endian packed) and their number (0 = not inside an entity)
-        pub acc: u64, pub pl: usize,
-        /// a raw special character, an unknown entity, or a character different from the input was seen
+        /// a raw special character, a split or unknown entity, an over-long write, or a decoded
+        /// character different from the input was seen
         pub bad: bool,
         /// number of octets written
         pub total: usize,
@@ -37,39 +41,39 @@ mod verif_xml_escape {
         fn emit(&mut self, c: u8) {
             if self.i < self.n && self.inp[self.i] == c { self.i += 1 } else { self.bad = true }
         }
-        fn octet(&mut self, c: u8) {
-            self.total = self.total.wrapping_add(1);
-            if self.pl == 0 {
-                if c == b'&' { self.acc = c as u64; self.pl = 1; }
-                else if must_escape(self.attr, c) { self.bad = true }
-                else { self.emit(c) }
-            } else {
-                self.acc = (self.acc << 8) | c as u64;
-                self.pl += 1;
-                if c == b';' {
-                    if self.acc == LT { self.emit(b'<') }
-                    else if self.acc == GT { self.emit(b'>') }
-                    else if self.acc == AMP { self.emit(b'&') }
-                    else if self.acc == QUOT { self.emit(b'"') }
-                    else if self.acc == APOS { self.emit(b'\'') }
-                    else { self.bad = true }
-                    self.pl = 0;
-                } else if self.pl >= 6 { self.bad = true; self.pl = 0; }
-            }
+        fn plain(&mut self, c: u8) {
+            if must_escape(self.attr, c) { self.bad = true } else { self.emit(c) }
         }
     }
     impl io::Write for Unesc {
         fn write(&mut self, d: &[u8]) -> io::Result<usize> {
-            // every write of write_escaped is a piece of the input or one entity: at most 6 octets
-            // (unrolled, so that the sink adds no loop to unwind; a longer write is flagged)
-            if d.len() > 6 { self.bad = true }
-            if 0 < d.len() { self.octet(d[0]) }
-            if 1 < d.len() { self.octet(d[1]) }
-            if 2 < d.len() { self.octet(d[2]) }
-            if 3 < d.len() { self.octet(d[3]) }
-            if 4 < d.len() { self.octet(d[4]) }
-            if 5 < d.len() { self.octet(d[5]) }
-            Ok(d.len())
+            let l = d.len();
+            self.total = self.total.wrapping_add(l);
+            if l > 6 { self.bad = true; return Ok(l) }
+            if l > 0 && d[0] == b'&' {
+                // big-endian packing of the (at most 6) octets, compared with the packed entities
+                let mut w = 0u64;
+                if 0 < l { w = (w << 8) | d[0] as u64 }
+                if 1 < l { w = (w << 8) | d[1] as u64 }
+                if 2 < l { w = (w << 8) | d[2] as u64 }
+                if 3 < l { w = (w << 8) | d[3] as u64 }
+                if 4 < l { w = (w << 8) | d[4] as u64 }
+                if 5 < l { w = (w << 8) | d[5] as u64 }
+                if l == 4 && w == LT { self.emit(b'<') }
+                else if l == 4 && w == GT { self.emit(b'>') }
+                else if l == 5 && w == AMP { self.emit(b'&') }
+                else if l == 6 && w == QUOT { self.emit(b'"') }
+                else if l == 6 && w == APOS { self.emit(b'\'') }
+                else { self.bad = true }
+            } else {
+                if 0 < l { self.plain(d[0]) }
+                if 1 < l { self.plain(d[1]) }
+                if 2 < l { self.plain(d[2]) }
+                if 3 < l { self.plain(d[3]) }
+                if 4 < l { self.plain(d[4]) }
+                if 5 < l { self.plain(d[5]) }
+            }
+            Ok(l)
         }
         /// the sink takes everything at once (std's default write_all loop costs CBMC an unwinding per call)
         fn write_all(&mut self, d: &[u8]) -> io::Result<()> { self.write(d).map(|_| ()) }
@@ -98,7 +102,8 @@ mod verif_xml_escape {
         if let Some(s) = r {
             let b = s.as_bytes();
             let mut o = [0u8; 40];
-            assume(b.len() <= 6);
+            assert!(b.len() <= 6, "an entity has at most 6 octets");
+            if b.len() > 6 { return }
             o[..b.len()].copy_from_slice(b);
             assert!(entity_at(&o, 0, b.len()) == Some((c, b.len())), "the replacement is the standard entity of the character");
         }
@@ -108,11 +113,10 @@ mod verif_xml_escape {
     verif_harness!{ #[kani::unwind(8)] xml_escape_kb_n6; |attr: bool, b: [u8; 6], len: usize| {
         assume(len <= 6);
         let mode = if attr { TextEscape::Attr } else { TextEscape::Pcdata };
-        let mut sink = Unesc { attr, inp: b, n: len, i: 0, acc: 0, pl: 0, bad: false, total: 0 };
+        let mut sink = Unesc { attr, inp: b, n: len, i: 0, bad: false, total: 0 };
         let r = mode.write_escaped(&b[..len], &mut sink);
         assert!(r.is_ok(), "writing to a sink that never fails succeeds");
         assert!(!sink.bad, "no raw special character, only the five entities, decoded characters equal the input");
-        assert!(sink.pl == 0, "no unfinished entity at the end");
         assert!(sink.i == len, "un-escaping gives the whole input back");
         assert!(sink.total <= 36, "at most 6 octets per input octet");
     }}
@@ -120,11 +124,10 @@ mod verif_xml_escape {
     verif_harness!{ #[kani::unwind(6)] xml_escape_kb_n4; |attr: bool, b: [u8; 6], len: usize| {
         assume(len <= 4);
         let mode = if attr { TextEscape::Attr } else { TextEscape::Pcdata };
-        let mut sink = Unesc { attr, inp: b, n: len, i: 0, acc: 0, pl: 0, bad: false, total: 0 };
+        let mut sink = Unesc { attr, inp: b, n: len, i: 0, bad: false, total: 0 };
         let r = mode.write_escaped(&b[..len], &mut sink);
         assert!(r.is_ok(), "writing to a sink that never fails succeeds");
         assert!(!sink.bad, "no raw special character, only the five entities, decoded characters equal the input");
-        assert!(sink.pl == 0, "no unfinished entity at the end");
         assert!(sink.i == len, "un-escaping gives the whole input back");
         assert!(sink.total <= 24, "at most 6 octets per input octet");
     }}
